@@ -1193,6 +1193,184 @@ Definition ozone_node_id (c : cfg) (z : ozone) (n : name) : option nat :=
   | _ => None
   end.
 
+(* ---------------------------------------------------------------- the B-tree zone's WritableVersion
+   dns.btreezone.WritableVersion overrides _maybe_cow_with_name / put_rdataset / delete_rdataset / delete_node
+   to maintain node flags (ORIGIN, DELEGATION, GLUE) and a delegation index, and update_glue_flag re-creates
+   (copy-on-write) the nodes beneath a cut.  A fourth store instance with exactly this bookkeeping; that it
+   leaves the *content* alone is a theorem (Proofs/TxnBtree.v), and its flags are compared with the real
+   B-tree zone on every run.  The node map is kept in canonical order (BTreeDict), which is what the
+   cursor walk of update_glue_flag relies on. *)
+Definition fORIGIN := 1. Definition fDELEGATION := 2. Definition fGLUE := 4.
+Definition tNS := 2.
+
+Record bnode := mkBn { bn_flags : Z; bn_rds : node }.
+Definition bmap := list (name * bnode).
+
+Fixpoint bmap_get (m : bmap) (k : name) : option bnode :=
+  match m with
+  | [] => None
+  | (k', v) :: r => if name_eqb k' k then Some v else bmap_get r k
+  end.
+
+(* insertion keeps the canonical order of the keys *)
+Fixpoint bmap_set (m : bmap) (k : name) (v : bnode) : bmap :=
+  match m with
+  | [] => [(k, v)]
+  | (k', v') :: r =>
+      if name_eqb k' k then (k', v) :: r
+      else if order k k' <? 0 then (k, v) :: (k', v') :: r
+      else (k', v') :: bmap_set r k v
+  end.
+
+Fixpoint bmap_remove (m : bmap) (k : name) : bmap :=
+  match m with
+  | [] => []
+  | (k', v) :: r => if name_eqb k' k then bmap_remove r k else (k', v) :: bmap_remove r k
+  end.
+
+Definition bmap_del (m : bmap) (k : name) : res bmap :=
+  match bmap_get m k with Some _ => Ok (bmap_remove m k) | None => Internal eKeyError end.
+
+Definition deleg_has (d : list name) (k : name) : bool := existsb (fun x => name_eqb x k) d.
+Definition deleg_add (d : list name) (k : name) : list name := if deleg_has d k then d else d ++ [k].
+Definition deleg_discard (d : list name) (k : name) : list name := filter (fun x => negb (name_eqb x k)) d.
+
+(* Delegations.get_delegation: the greatest delegation point <= name (cursor.seek(name, before=False); prev) *)
+Definition deleg_pred (d : list name) (n : name) : option name :=
+  fold_left (fun best e => if order e n <=? 0
+                           then match best with
+                                | None => Some e
+                                | Some b => if order b e <? 0 then Some e else best
+                                end
+                           else best) d None.
+
+Definition deleg_is_glue (d : list name) (n : name) : bool :=
+  match deleg_pred d n with
+  | Some cut => reln n cut =? rSUB
+  | None => false
+  end.
+
+Record bver := mkBver { bv_nodes : bmap; bv_deleg : list name; bv_changed : list name }.
+
+Definition b_is_origin (c : cfg) (k : name) : bool :=
+  if c_rel c then name_eqb k NameM.empty else name_eqb k (c_origin c).
+
+Definition b_get_node (c : cfg) (v : bver) (n : name) : res (option node) :=
+  do k <- validate_name c n;
+  Ok (match bmap_get (bv_nodes v) k with Some bn => Some (bn_rds bn) | None => None end).
+
+Definition b_get_rdataset (c : cfg) (v : bver) (n : name) (ty cov : Z) : res (option rds) :=
+  do on <- b_get_node c v n;
+  Ok (match on with None => None | Some nd => node_find nd cIN ty cov end).
+
+(* _maybe_cow_with_name: the base class copies (a new node has no flags), then the flags are re-derived *)
+Definition b_maybe_cow (c : cfg) (v : bver) (n : name) : res (bver * bnode * name) :=
+  do k <- validate_name c n;
+  let '(nodes1, changed1, nd) :=
+    match bmap_get (bv_nodes v) k with
+    | Some bn =>
+        if changed_has (bv_changed v) k then (bv_nodes v, bv_changed v, bn)
+        else (bmap_set (bv_nodes v) k (mkBn 0 (bn_rds bn)), changed_add (bv_changed v) k, mkBn 0 (bn_rds bn))
+    | None => (bmap_set (bv_nodes v) k (mkBn 0 []), changed_add (bv_changed v) k, mkBn 0 [])
+    end in
+  let fl := bn_flags nd in
+  let fl' := if b_is_origin c k then Z.lor fl fORIGIN
+             else if deleg_is_glue (bv_deleg v) k then Z.lor fl fGLUE
+             else if deleg_has (bv_deleg v) k then Z.lor fl fDELEGATION
+             else fl in
+  let nd' := mkBn fl' (bn_rds nd) in
+  Ok (mkBver (bmap_set nodes1 k nd') (bv_deleg v) changed1, nd', k).
+
+Fixpoint drop_upto (n : name) (m : bmap) : bmap :=
+  match m with
+  | [] => []
+  | (k, v) :: r => if order k n <=? 0 then drop_upto n r else m
+  end.
+
+(* the loop of update_glue_flag over the entries after `name` while they are subdomains of it *)
+Fixpoint ugf_loop (n : name) (is_glue : bool) (after : bmap) (exposed : option name)
+         (deleg : list name) (changed : list name) (updates : list (name * bnode))
+  : list name * list name * list (name * bnode) :=
+  match after with
+  | [] => (deleg, changed, updates)
+  | (ename, bn) :: r =>
+      if negb (is_subdomain ename n) then (deleg, changed, updates)
+      else
+        let '(bn1, changed1) := if changed_has changed ename then (bn, changed)
+                                else (mkBn 0 (bn_rds bn), changed_add changed ename) in
+        if is_glue then
+          ugf_loop n is_glue r exposed (deleg_discard deleg ename) changed1 (updates ++ [(ename, mkBn fGLUE (bn_rds bn1))])
+        else if match exposed with Some x => is_subdomain ename x | None => false end then
+          ugf_loop n is_glue r exposed deleg changed1 (updates ++ [(ename, mkBn fGLUE (bn_rds bn1))])
+        else match node_find (bn_rds bn1) cIN tNS 0 with
+             | Some _ => ugf_loop n is_glue r (Some ename) (deleg_add deleg ename) changed1
+                                  (updates ++ [(ename, mkBn fDELEGATION (bn_rds bn1))])
+             | None => ugf_loop n is_glue r exposed deleg changed1 (updates ++ [(ename, mkBn 0 (bn_rds bn1))])
+             end
+  end.
+
+Definition b_update_glue (v : bver) (n : name) (is_glue : bool) : bver :=
+  let '(deleg, changed, updates) := ugf_loop n is_glue (drop_upto n (bv_nodes v)) None (bv_deleg v) (bv_changed v) [] in
+  mkBver (fold_left (fun m kn => bmap_set m (fst kn) (snd kn)) updates (bv_nodes v)) deleg changed.
+
+Definition b_put_rdataset (c : cfg) (v : bver) (n : name) (r : rds) : res bver :=
+  do x <- b_maybe_cow c v n;
+  let '(v1, nd, k) := x in
+  let '(v2, fl) :=
+    if (r_ty r =? tNS) && (Z.land (bn_flags nd) (Z.lor fORIGIN fGLUE) =? 0) then
+      let fl := Z.lor (bn_flags nd) fDELEGATION in
+      if deleg_has (bv_deleg v1) k then (v1, fl)
+      else (b_update_glue (mkBver (bv_nodes v1) (deleg_add (bv_deleg v1) k) (bv_changed v1)) k true, fl)
+    else (v1, bn_flags nd) in
+  Ok (mkBver (bmap_set (bv_nodes v2) k (mkBn fl (node_replace (bn_rds nd) r))) (bv_deleg v2) (bv_changed v2)).
+
+Definition b_delete_rdataset (c : cfg) (v : bver) (n : name) (ty cov : Z) : res bver :=
+  do x <- b_maybe_cow c v n;
+  let '(v1, nd, k) := x in
+  let '(v2, fl) :=
+    if (ty =? tNS) && deleg_has (bv_deleg v1) k then
+      (b_update_glue (mkBver (bv_nodes v1) (deleg_discard (bv_deleg v1) k) (bv_changed v1)) k false,
+       Z.ldiff (bn_flags nd) fDELEGATION)
+    else (v1, bn_flags nd) in
+  let rds' := node_delete (bn_rds nd) cIN ty cov in
+  match rds' with
+  | [] => do m <- bmap_del (bv_nodes v2) k; Ok (mkBver m (bv_deleg v2) (bv_changed v2))
+  | _ => Ok (mkBver (bmap_set (bv_nodes v2) k (mkBn fl rds')) (bv_deleg v2) (bv_changed v2))
+  end.
+
+Definition b_delete_node (c : cfg) (v : bver) (n : name) : res bver :=
+  do k <- validate_name c n;
+  match bmap_get (bv_nodes v) k with
+  | Some bn =>
+      let v2 := if Z.land (bn_flags bn) fDELEGATION =? 0 then v
+                else b_update_glue (mkBver (bv_nodes v) (deleg_discard (bv_deleg v) k) (bv_changed v)) k false in
+      Ok (mkBver (bmap_remove (bv_nodes v2) k) (bv_deleg v2) (changed_add (bv_changed v2) k))
+  | None => Ok v
+  end.
+
+Definition bzone := (bmap * list name)%type.
+
+Definition bstore (c : cfg) : store bzone bver := {|
+  s_begin := fun z replacement => if replacement then mkBver [] [] [] else mkBver (fst z) (snd z) [];
+  s_publish := fun v => (bv_nodes v, bv_deleg v);
+  s_get := b_get_rdataset c;
+  s_put := b_put_rdataset c;
+  s_del_name := b_delete_node c;
+  s_del_rds := b_delete_rdataset c;
+  s_exists := fun v n => do on <- b_get_node c v n; Ok (match on with Some _ => true | None => false end);
+  s_node := b_get_node c;
+  s_changed := fun v => match bv_changed v with [] => false | _ => true end;
+  s_count := fun v => (zlen (bv_nodes v), fold_right (fun kn acc => zlen (bn_rds (snd kn)) + acc) 0 (bv_nodes v))
+|}.
+
+Definition btree_hist (c : cfg) (h : list txnspec) (z : bzone) := run_hist (bstore c) c h z.
+
+Definition bzone_node (c : cfg) (z : bzone) (n : name) : option bnode :=
+  match validate_name c n with
+  | Ok k => bmap_get (fst z) k
+  | _ => None
+  end.
+
 (* ---------------------------------------------------------------- harness interface *)
 Definition obs_of_rdata (x : rdata) : obs := L [I (fst x); I (snd x)].
 Definition obs_of_rds (r : rds) : obs := L [I (r_ty r); I (r_cov r); I (r_ttl r); L (map obs_of_rdata (r_items r))].
@@ -1361,10 +1539,28 @@ Fixpoint drop_rds_identity (l : list obs) : list obs :=
   | x :: r => x :: drop_rds_identity r
   end.
 
-(* All three implementation models are evaluated on every case.  The rdataset-object model gives the
+Definition obs_of_bprobe (c : cfg) (z : bzone) (p : name) : obs :=
+  match bzone_node c z p with Some bn => obs_of_node (bn_rds bn) | None => N end.
+
+Definition obs_of_bflags (c : cfg) (z : bzone) (p : name) : obs :=
+  match bzone_node c z p with Some bn => I (bn_flags bn) | None => N end.
+
+Definition obs_of_btxn (c : cfg) (probes : list name) (x : list (res out) * bzone) : obs :=
+  L [L (map obs_of_out (fst x)); L [I (zlen (fst (snd x))); L (map (obs_of_bprobe c (snd x)) probes)]].
+
+(* append the node flags of the B-tree model to the observation of every transaction *)
+Fixpoint add_flags (c : cfg) (probes : list name) (l : list obs) (b : list (list (res out) * bzone)) : list obs :=
+  match l, b with
+  | L xs :: r, x :: rb => L (xs ++ [L (map (obs_of_bflags c (snd x)) probes)]) :: add_flags c probes r rb
+  | _, _ => l
+  end.
+
+(* All implementation models are evaluated on every case.  The rdataset-object model gives the
    observation (results, zone content, node-object identities, rdataset-object identities and mutability);
    the node-object model must agree on results, content and node identities, the value-level model (the one
-   `refines` is about) on results and content - otherwise the case is reported as a disagreement. *)
+   `refines` is about) on results and content, and - for a B-tree zone - the B-tree model (flags, delegation
+   index, glue bookkeeping) on results and content too; it contributes the node flags to the observation.
+   Otherwise the case is reported as a disagreement. *)
 Definition run_case (kind rel : Z) (origin probes hist : list obs) (idobs : bool) : obs :=
   match name_of_obs origin, names_of_obs probes, hist_of_obs hist with
   | Some origin, Some probes, Some h =>
@@ -1372,15 +1568,19 @@ Definition run_case (kind rel : Z) (origin probes hist : list obs) (idobs : bool
       let oo := obs_of_otxns c probes ([], [], []) (obj_hist c h ([], [], [])) in
       let oh := obs_of_htxns c probes ([], []) (heap_hist c h ([], [])) in
       let ov := map (obs_of_txn c probes) (impl_hist c h []) in
+      let bh := if kind =? 2 then btree_hist c h ([], []) else [] in
       if obs_eqb (L (drop_rds_identity oo)) (L oh) && obs_eqb (L (drop_identity oh)) (L ov)
-      then (if idobs then L oo else L (drop_identity oh))
+         && (if kind =? 2 then obs_eqb (L (map (obs_of_btxn c probes) bh)) (L ov) else true)
+      then
+        let base := if idobs then oo else drop_identity oh in
+        L (if kind =? 2 then add_flags c probes base bh else base)
       else E eModelsDisagree
   | _, _, _ => E eBadCase
   end.
 
 (* cfg = [kind; relativize; origin] or [kind; relativize; origin; identity observed?].  Identity is not
    observed for B-tree zones whose history touches NS records: btreezone's delegation / glue bookkeeping
-   (C20) re-creates the node objects below a cut to update their flags. *)
+   re-creates the node objects below a cut to update their flags. *)
 Definition run (o : obs) : obs :=
   match o with
   | L [L [I kind; I rel; L origin]; L probes; L hist] => run_case kind rel origin probes hist true
